@@ -219,7 +219,13 @@ def oracle(run: runner.Run, oc: Outcome) -> None:
                     if 'OPERATOR_PAUSING' in why_flag and any(t_off is not None and flag_at < t_off <= t_due + ESCALATION_SLACK + PAUSE_SLACK
                                                               for (_, t_off) in rival):
                         vanished = True
-                    oc.add('C09/stages', 'reason-vanished-while-stopping' if vanished else 'not-cancelled-after-backoff',
+                    # told apart: the object vanished without any event (removed while the watch was re-established): the
+                    # re-check of its stopping meets a 404 and nothing ever continues the stages (the other face of KF-C09-4)
+                    unnoticed = any(tr_.uid == uid and tr_.after is None and tr_.before is not None and tr_.t <= t_due + esc_slack
+                                    for tr_ in run.transitions) and \
+                        not any(s_.etype == 'DELETED' for s_ in steps.get((opid, uid), []))
+                    oc.add('C09/stages', 'object-gone-unnoticed' if unnoticed else
+                           'reason-vanished-while-stopping' if vanished else 'not-cancelled-after-backoff',
                            f"daemon {hid} of {uid} (mode {mode}): stop flag at t={flag_at:.4f}, backoff={backoff}, so the "
                            f"cancellation was due at t={t_due:.4f}; it came at {t_seen_cancel} (instance alive until "
                            f"{alive_to:.3f}; reason at flag: {extra.get('reason_at_flag')})", uid=uid, hid=hid)
